@@ -243,6 +243,10 @@ class SynthDesc():
                 self.has_variants = num_variants > 0
                 # // maybe later, read in variant names and values
                 # // this is harder than it might seem at first
+                for _ in range(num_variants):
+                    # Skip each block to leave the stream at the next def.
+                    frw.read_pascal_str(stream)
+                    frw.read_f32_list(stream, num_controls)
 
                 self.sdef._constants = dict()
                 for i, k in enumerate(self.constants):
